@@ -16,7 +16,7 @@ FUNCS = ("nansum", "nanmean", "nanmin", "nanmax", "count")
 
 def cases(tier, seed):
     out = []
-    Lmax, Tmax = (4, 4) if tier == "quick" else (6, 8)
+    Lmax, Tmax = (4, 4) if tier == "quick" else (7, 8)
     for f in FUNCS:
         for dt in ("float64", "int64"):
             for L in range(1, Lmax + 1):
@@ -26,7 +26,7 @@ def cases(tier, seed):
                     out.append({"kind": "reduce1d", "func": f, "dtype": dt, "L": L, "threads": T,
                                 "name": f"nanops.{f}/{dt}/len={L}/n_threads={T}", "witness": f == "nansum" and dt == "float64" and L == Lmax and T == 2})
     for f in ("nansum", "nanmin", "nanmax"):
-        for shape in ((2, 2), (2, 3), (3, 2)) if tier == "quick" else ((2, 2), (2, 3), (3, 2), (3, 3), (1, 3)):
+        for shape in ((2, 2), (2, 3), (3, 2)) if tier == "quick" else ((2, 2), (2, 3), (3, 2), (3, 3), (1, 3), (4, 3), (3, 4)):
             for axis in (0, 1):
                 out.append({"kind": "reduce2d", "func": f, "dtype": "float64", "shape": list(shape), "axis": axis, "threads": 1,
                             "name": f"nanops.{f}/float64/shape={shape}/axis={axis}"})
@@ -286,7 +286,7 @@ def replay(case, conc, cand=None):
 
 META = {
     "bounds": {"quick": {"length": "1..4", "n_threads": "1..min(4, len+1)", "2-D shapes": "<= 3x2", "var": "length <= 3, every null pattern", "nb_dot": "<= 3x2"},
-               "thorough": {"length": "1..6", "n_threads": "1..8 (incl. more threads than elements)", "2-D shapes": "<= 3x3", "var": "length <= 4", "nb_dot": "<= 3x3"}},
+               "thorough": {"length": "1..7", "n_threads": "1..8 (incl. more threads than elements)", "2-D shapes": "<= 4x3", "var": "length <= 4", "nb_dot": "<= 3x3"}},
     "enumerated": ["array length/shape", "thread count", "null pattern for nanvar/nanstd (the count becomes a constant)", "ddof"],
     "symbolic": ["values and NaN placement (1-D/2-D reducers)", "the non-null values (variance, dot product)"],
     "assumptions": ["NumPy nan-function semantics as the specification: nansum of nothing = 0, nanmin/nanmax/nanmean of nothing = NaN, count = number of non-null values",
